@@ -212,7 +212,7 @@ Lemma enable_shape cfg c p f s sn :
   reqs (outs (step_enable cfg c p f s sn)) = [] \/ exists b, reqs (outs (step_enable cfg c p f s sn)) = [REnable b].
 Proof.
   unfold step_enable, outs. destruct (f_sm f && p_sm_enable p); [|left; reflexivity].
-  right. exists (c_sm_resume cfg). destruct s as [|[] s']; reflexivity.
+  right. exists (resume_wish cfg p). destruct s as [|[] s']; reflexivity.
 Qed.
 
 Lemma session_shape cfg c p f s sn : after_bind (reqs (outs (step_session cfg c p f s sn))) = true.
